@@ -21,6 +21,10 @@ type Request struct {
 	Fns    []Fn             `json:"fns"`
 	Script map[string][]Beh `json:"script"`
 	Ops    []Op             `json:"ops"`
+
+	// M2 (generated-source mode): key under which the program's declared
+	// functions and struct types were compiled in (package m2gen); "" = reflect mode.
+	M2 string `json:"m2"`
 }
 
 type Cfg struct {
